@@ -13,7 +13,7 @@ class Walk:
                  'embedded', 'stale_seps', 'single_child_root', 'n_interior',
                  'keys', 'values', 'is_mapping', 'one_leaf_nodes',
                  'max_leaf_fill', 'max_int_fill', 'root_size', 'interior_objs',
-                 'separators', 'leaf_paths')
+                 'separators', 'leaf_paths', 'inline_nonroot')
 
     def ok(self):
         return not self.errors
@@ -49,6 +49,7 @@ def walk(tree, is_mapping, check_sizes=True, tree_api_filled=True):
     w.stale_seps = 0
     w.single_child_root = False
     w.n_interior = 0
+    w.inline_nonroot = 0   # non-root nodes whose state is the 1-tuple form
     w.one_leaf_nodes = 0   # non-root interior nodes with exactly one leaf child
     w.max_leaf_fill = 0
     w.max_int_fill = 0
@@ -102,6 +103,7 @@ def walk(tree, is_mapping, check_sizes=True, tree_api_filled=True):
             # embedded single leaf
             if not is_root:
                 w.one_leaf_nodes += 1
+                w.inline_nonroot += 1
             w.embedded = w.embedded or is_root
             inner = st[0]
             if not (isinstance(inner, tuple) and len(inner) == 1):
